@@ -4115,16 +4115,17 @@ class FlowIR(object):
             'workflowAttributes': {
                 'restartHookFile': str,
                 'replicate': int,
-                'aggregate': bool,
-                'isMigratable': bool,
-                'isMigrated': bool,
+                # VV: bool("false") and bool("maybe") are True, convert booleans strictly
+                'aggregate': str_to_bool,
+                'isMigratable': str_to_bool,
+                'isMigrated': str_to_bool,
                 'repeatInterval': int,
                 'repeatRetries': int,
-                'isRepeat': bool,
+                'isRepeat': str_to_bool,
                 # VV: when maxRestarts is None, the Engine/RepeatingEngine objects decides max number of restarts
                 'maxRestarts': optional_int,
                 'optimizer': {
-                    'disable': bool,
+                    'disable': str_to_bool,
                     'exploitChance': float,
                     'exploitTarget': float,
                     'exploitTargetLow': float,
